@@ -415,6 +415,39 @@ def misc_bugclasses(prog, cfg_of_):
                                 f"'{stmt_text(st.value, 90)}' stores the one-element collection only when the key is new and "
                                 f"discards it otherwise: every further value of an existing key is lost (a step with "
                                 f"several same-named parents keeps the first one only)"))
+    # IDINDEX: a LIST built by append and then subscripted with an object's id: position and id agree only while ids
+    # are 0..n-1 in insertion order (not after remove_node / explicit ids / pruning)
+    for f in prog.all_funcs():
+        if f.module.generated:
+            continue
+        lists = {}
+        for n in own_nodes(f.node):
+            if isinstance(n, ast.Assign) and len(n.targets) == 1 and isinstance(n.targets[0], ast.Name):
+                v = n.value
+                if (isinstance(v, ast.List) and not v.elts) or (isinstance(v, ast.Call) and isinstance(v.func, ast.Name)
+                                                                and v.func.id == 'list' and not v.args):
+                    lists[n.targets[0].id] = n
+                else:
+                    lists.pop(n.targets[0].id, None) if n.targets[0].id in lists and not isinstance(v, ast.List) else None
+        for nm in list(lists):
+            stored = any(isinstance(x, ast.Subscript) and isinstance(x.ctx, (ast.Store, ast.Del)) and isinstance(x.value, ast.Name)
+                         and x.value.id == nm for x in own_nodes(f.node))
+            rebound = sum(1 for x in own_nodes(f.node) if isinstance(x, ast.Name) and x.id == nm
+                          and isinstance(x.ctx, ast.Store)) > 1
+            if stored or rebound:
+                continue
+            for x in own_nodes(f.node):
+                if isinstance(x, ast.Subscript) and isinstance(x.ctx, ast.Load) and isinstance(x.value, ast.Name) \
+                        and x.value.id == nm:
+                    k = x.slice
+                    is_id = (isinstance(k, ast.Attribute) and k.attr == 'id') or \
+                        (isinstance(k, ast.Name) and (k.id == 'id' or k.id.endswith('_id')))
+                    if is_id:
+                        out.append((f, x, 'IDINDEX',
+                                    f"'{stmt_text(x)}' looks an object up by its id in '{nm}', a list filled by append: the "
+                                    f"position of an element equals its id only while ids are 0..n-1 in insertion order - "
+                                    f"after remove_node / pruning / explicit ids the wrong element (or IndexError) results"))
+                        break
     # ARGSWAP: positional arguments whose names are the callee's parameter names - in exchanged positions.  Decided
     # on the source as written (before helpers are un-extracted), by unique function name
     defs = {}
